@@ -154,7 +154,8 @@ def rule_sites(prog, scope):
             n = cnt.get(k, 0)
             cnt[k] = n + 1
             out.append(('%s|call %s%s|#%d' % (f.path, nm, targ, n), f, c.bb, c.span))
-            SITE_META[out[-1][0]] = {'kind': 'C', 'label': 'call %s%s' % (nm, targ), 'callee': (c.f.get('res') if (c.f.get('res') or '') in names else None)}
+            SITE_META[out[-1][0]] = {'kind': 'C', 'label': 'call %s%s' % (nm, targ), 'callee': (c.f.get('res') if (c.f.get('res') or '') in names else None),
+                                     'args': [_norm(vexpr(f, a, depth=20)) for a in c.args]}
     return out
 
 
@@ -307,7 +308,7 @@ def evaluate(rule, prog, scope, ledger_name, floor, only=None):
         # calls that reach it - are the same. Compare the multisets of (diagnostic, effective conditions).
         e_old = _effective(_old_sites(led))
         e_now = _effective({k: {'guards': v['guards'], 'fn': v['fn'], 'kind': v['meta'].get('kind'), 'label': v['meta'].get('label'), 'callee': v['meta'].get('callee'),
-                                'folded': bool(folded_now.get(k))} for k, v in now.items()})
+                                'folded': bool(folded_now.get(k)), 'args': v['meta'].get('args')} for k, v in now.items()})
         from collections import Counter
         c_old, c_now = Counter(x[:2] for x in e_old), Counter(x[:2] for x in e_now)
         if c_old == c_now:
@@ -340,6 +341,12 @@ def evaluate(rule, prog, scope, ledger_name, floor, only=None):
             if what == 'unrecorded-rule-site' and key in now and now[key]['meta'].get('kind') == 'C':
                 sg = csig(now[key]['fn'], now[key]['meta'].get('label'), now[key]['guards'])
                 if c_old_calls.get(sg, 0) >= c_now_calls.get(sg, 0):
+                    continue
+                # a call of a function that did not exist when the ledger was written (a helper extracted since): the call carries no rule
+                # of its own - what the helper reports is compared, with the conditions of this call joined in, as the helper's own sites
+                callee = now[key]['meta'].get('callee')
+                old_fns = {re.sub(r'(::\{closure#\d+\})+$', '', v['fn']) for v in old_sites.values()}
+                if callee and callee not in old_fns and not any(re.sub(r'(::\{closure#\d+\})+$', '', now[k2]['fn']) == callee for k2 in bad_now if k2 in now):
                     continue
             if what == 'unrecorded-rule-site' and key in now and now[key]['meta'].get('kind') == 'R' and _adapter_of(prog, now[key]['fn']) in ('any', 'all'):
                 # a new predicate closure handed to any()/all(): its verdict is a bool the enclosing function has to branch on, and that
@@ -379,7 +386,7 @@ def _old_sites(led):
             nm = re.sub(r'<.*$', '', label[5:]).split('(')[0]
             cands = [x for x in fns if re.sub(r'::<.*?>', '', x).endswith('::' + nm)]
             callee = cands[0] if len(cands) == 1 else None
-        out[k] = {'guards': v['guards'], 'fn': fn, 'kind': kind, 'label': label, 'callee': callee, 'folded': bool(v.get('folded_into'))}
+        out[k] = {'guards': v['guards'], 'fn': fn, 'kind': kind, 'label': label, 'callee': callee, 'folded': bool(v.get('folded_into')), 'args': v.get('args')}
     return out
 
 
@@ -612,16 +619,26 @@ def _effective(sites):
         if v.get('kind') == 'C' and v.get('callee'):
             callers.setdefault(v['callee'], []).append(v)
 
-    def chains(fn, depth, seen):
-        # a closure is reached the way its enclosing function is
+    def prep(g, fn):
+        return _abstract(canon(_norm_elem(g, fn)))
+
+    def up(fn, acc, depth, seen):
+        """acc: conditions collected so far, as (text, in terms of the parameters of fn?) - texts from closures are not, and are carried unchanged.
+        Going up through a call, the parameters are replaced by the actual arguments of that call: a test on a value and the same test on a
+        parameter the value is handed to are the same condition."""
+        is_closure = bool(re.search(r'::\{closure#\d+\}$', fn))
         fn = re.sub(r'(::\{closure#\d+\})+$', '', fn)
         cs = [c for c in callers.get(fn, []) if c['fn'] not in seen]
         if not cs or depth == 0:
-            return [frozenset()]
+            return [frozenset(prep(g, fn) for g, _ in acc)]
         out = []
         for c in cs:
-            for up in chains(c['fn'], depth - 1, seen | {fn}):
-                out.append(frozenset(_abstract(canon(_norm_elem(g, c['fn']))) for g in c['guards'] if not _LOOP_HAS_NEXT.match(g)) | up)
+            sub = {'arg%d' % (i + 1): a for i, a in enumerate(c.get('args') or [])}
+            # texts in terms of the parameters of the function being left are rewritten in terms of the caller's (and stay rewritable further
+            # up); texts that come out of a closure keep their own parameter names for good
+            acc2 = [((_subst_args(g, sub), True) if (own and sub and not is_closure) else (g, own and not is_closure)) for g, own in acc]
+            acc2 += [(g, True) for g in c['guards'] if not _LOOP_HAS_NEXT.match(g)]
+            out += up(c['fn'], acc2, depth - 1, seen | {fn})
         return out
     ms = []
     for k, v in sites.items():
@@ -629,7 +646,7 @@ def _effective(sites):
             continue          # a filter predicate whose conditions are carried by the sites behind the filter
         if v.get('kind') in ('E', 'R'):
             # one entry per distinct effective condition set of the site (how many call chains lead to the same set does not matter)
-            own = frozenset(_abstract(canon(_norm_elem(g, v['fn']))) for g in v['guards'] if not _LOOP_HAS_NEXT.match(g))
-            for eff in sorted({tuple(sorted(own | up)) for up in chains(v['fn'], 10, frozenset())}):
+            own = [(g, True) for g in v['guards'] if not _LOOP_HAS_NEXT.match(g)]
+            for eff in sorted({tuple(sorted(x)) for x in up(v['fn'], own, 10, frozenset())}):
                 ms.append((_abstract(_norm_elem(v['label'], v['fn'])), eff, k))
     return sorted(ms)
